@@ -22,8 +22,8 @@ from sismic.interpreter import Interpreter
 from sismic.model import Event, InternalEvent, MetaEvent
 
 PLAN = {
-    'quick': [(2, 3, 2), (4, 4, 1)],
-    'thorough': [(2, 4, 2), (5, 5, 1)],
+    'quick': [(2, 4, 2)],
+    'thorough': [(2, 4, 2), (5, 5, 2)],
 }
 DOCUMENTED = ['step started', 'step ended', 'event consumed', 'event sent', 'state exited',
               'state entered', 'transition processed']
